@@ -178,6 +178,9 @@ func runE2(engine string, pk pathKind, o *stack.Olla, a, b *stack.Backend) {
 		{"via-2", [][2]string{{"Via", "1.1 alpha"}, {"Via", "1.1 beta"}}},
 		{"xff-1", [][2]string{{"X-Forwarded-For", "203.0.113.1"}}},
 		{"xff-2", [][2]string{{"X-Forwarded-For", "203.0.113.1"}, {"X-Forwarded-For", "198.51.100.2"}}},
+		// an empty first line followed by real values (a front proxy that emits the header unconditionally)
+		{"via-empty-first", [][2]string{{"Via", ""}, {"Via", "1.1 edge-cache"}}},
+		{"xff-empty-first", [][2]string{{"X-Forwarded-For", ""}, {"X-Forwarded-For", "203.0.113.7"}, {"X-Forwarded-For", "198.51.100.9"}}},
 		{"fwd-all", [][2]string{{"X-Forwarded-Proto", "https"}, {"X-Forwarded-Host", "front.example"}, {"X-Real-IP", "203.0.113.9"}, {"Via", "1.1 alpha, 1.1 beta"}, {"X-Forwarded-For", "203.0.113.1, 198.51.100.2"}}},
 	}
 	all := append(append([]string{}, sensitive...), "Keep-Alive", "Proxy-Authenticate", "TE", "Trailer", "Upgrade")
@@ -285,14 +288,18 @@ func runE2(engine string, pk pathKind, o *stack.Olla, a, b *stack.Backend) {
 					for _, l := range ps.lines {
 						if l[0] == name {
 							for _, p := range strings.Split(l[1], ",") {
-								prev = append(prev, strings.TrimSpace(p))
+								if p = strings.TrimSpace(p); p != "" {
+									prev = append(prev, p)
+								}
 							}
 						}
 					}
 					var got []string
 					for _, v := range q.HeaderValues(name) {
 						for _, p := range strings.Split(v, ",") {
-							got = append(got, strings.TrimSpace(p))
+							if p = strings.TrimSpace(p); p != "" {
+								got = append(got, p)
+							}
 						}
 					}
 					ok := len(got) >= len(prev)
